@@ -233,3 +233,39 @@ func VP_C04_MaturingKeepsTheFarmersTotalPerPool() {
 		zzvp.Assert(zzvp.And(found, o.FarmedPoolCoin.Amount.Equal(other), o.FarmedPoolCoin.Denom == "otherpoolcoin"), "other-pools-record-untouched")
 	}
 }
+
+// The same step with TWO farmers queued in one pool (each with 0..1 queued entries of any age): what is pending or
+// matures for one farmer never shows up in the other farmer's records - each farmer's recorded total (queued + active)
+// is unchanged by the step.
+func VP_C04_MaturingKeepsEachOfTwoFarmersTotals() {
+	zzvp.Stub("(github.com/comdex-official/comdex/x/liquidity/keeper.Keeper).GetMinimumEpochDurationFromPoolID")
+	zzvp.Stub("(github.com/comdex-official/comdex/x/rewards/keeper.Keeper).GetAllGaugesByGaugeTypeID")
+	var k Keeper
+	zzvp.Wire(&k)
+	ctx := zzvp.ClosedCtx()
+	const app = 1
+	var pool types.Pool
+	zzvp.AnyOf(&pool)
+	pool.AppId = app
+	zzvp.Assume(pool.Id >= 1 && pool.PairId >= 1)
+	k.SetPool(ctx, pool)
+	bech1, bech2 := zzvp.AnyString(), zzvp.AnyString()
+	f1 := vpUser(bech1)
+	f2 := vpUser(bech2, f1)
+	var before [2]sdkmath.Int
+	for i, f := range []sdk.AccAddress{f1, f2} {
+		q := types.NewQueuedfarmer(app, pool.Id, f)
+		before[i] = sdkmath.ZeroInt()
+		if zzvp.AnyBool() {
+			a := zzvp.AnySdkInt()
+			zzvp.Assume(a.IsPositive() && a.LTE(sdkmath.NewIntWithDecimal(1, 40)))
+			q.QueudCoins = append(q.QueudCoins, &types.QueuedCoin{FarmedPoolCoin: sdk.Coin{Denom: pool.PoolCoinDenom, Amount: a}, CreatedAt: zzvp.AnyTime()})
+			before[i] = a
+		}
+		k.SetQueuedFarmer(ctx, q)
+	}
+	k.ProcessQueuedFarmers(ctx, app)
+	zzvp.Reach("maturing-step-with-two-farmers-done")
+	zzvp.Assert(vpFarmedNow(k, ctx, app, pool.Id, f1).Equal(before[0]), "first-farmers-recorded-total-unchanged")
+	zzvp.Assert(vpFarmedNow(k, ctx, app, pool.Id, f2).Equal(before[1]), "second-farmers-recorded-total-unchanged")
+}
